@@ -371,13 +371,16 @@ _RAW_OK = set("ABCDEFGHIJKLMNOPQRSTUVWXYZabcdefghijklmnopqrstuvwxyz0123456789-._
 
 
 def render(tokens, prefix, mode, fx_abs):
-    """tokens: tuple of token strings (decoded text; '@abs' = absolute path of the outside secret;
+    """tokens: tuple of token strings (decoded text; '@abs' = absolute path of the outside secret, '@abs2' of the sibling's;
     tokens starting with 'raw:' are raw URL text used verbatim, e.g. invalid UTF-8 escapes).
     mode 0: minimal escaping; 1: every byte escaped; 2: separators escaped as well."""
     parts = []
     for t in tokens:
         if t == '@abs':
             t = fx_abs.lstrip('/')
+        elif t == '@abs2':
+            # absolute path of the secret in the SIBLING directory whose name starts with the served directory's name
+            t = os.path.join(os.path.dirname(fx_abs), 'root2', 'secret.txt').lstrip('/')
         if t.startswith('raw:'):
             parts.append(t[4:])
             continue
@@ -397,8 +400,8 @@ def render(tokens, prefix, mode, fx_abs):
 
 LONG = 'a' * 600
 SEGMENTS = ['a.txt', 'sub', '..', '.', '', 'secret.txt', 'root2', 'b.bin', 'raw:%252e%252e', '..\\', '\\', 'a.txt\x00',
-            'a.txt.', ' a.txt', '~', 'C:', LONG, '@abs', 'raw:%FF', '../']
-SEG_CORE3 = ['a.txt', 'sub', '..', '.', '', 'secret.txt', 'root2', 'b.bin', 'deep', 'c.txt', '\\', '..\\', '@abs', 'raw:%2e%2e']
+            'a.txt.', ' a.txt', '~', 'C:', LONG, '@abs', 'raw:%FF', '../', '@abs2']
+SEG_CORE3 = ['a.txt', 'sub', '..', '.', '', 'secret.txt', 'root2', 'b.bin', 'deep', 'c.txt', '\\', '..\\', '@abs', 'raw:%2e%2e', '@abs2']
 MUT_CHARS = ['.', '/', '\\', '\x00', ' ', '~', ':', '%', '?', '*', '|', '"', "'", '<', '>', '\x1f', '\x7f', '\x80',
              '\x9f', '\xa0', EACUTE, '\ufffd', 'b', '\t', '\n', '#']
 EXTRA_PATHS = [('@bare',), ('x y.txt',), (EACUTE + '.txt',), ('empty',), ('index.html',), ('sub', 'deep', 'c.txt'),
